@@ -28,6 +28,10 @@ NAMESPACE = 'SshAudit.C02'
 EXTENSIONS = ['props.ext.C02_policyaudit']
 THEOREMS = ['foldStatus_append', 'foldStatus_three', 'foldStatus_two', 'foldStatus_zero', 'status_iff', 'status_range', 'status_perm',
             'statusOfLines_eq', 'report_status', 'incomplete_never_clean', 'complete_status', 'policy_status']
+# functions / statement blocks of the code whose Lean definitions are regenerated from the source on every run (harness/translate_logic.py);
+# `GenLogic.<name>_eq_model` (lean/SshAudit/Props/GenLogic*.lean) ties each to the hand-written model function the theorems above are about
+GEN_LOGIC = ['status_step']
+
 TECHNIQUE = 'Lean 4 theorems (closed form of the status fold by induction, iff-characterisation, permutation invariance; case analysis of the audit() decision logic) + end-to-end correspondence through output() and main() over scripted peers'
 LEVEL_TEXT = ('The status fold is proved equal to "3 iff some failure, 2 iff no failure but a warning, 0 iff neither" for every note list, invariant under reordering, and the model report\'s status '
               'takes no output option; audit()\'s endings are stated outright as decision logic. The tie runs severity mixes through the real output() under all option sets and faulted handshakes '
